@@ -173,14 +173,19 @@ def behaviour(run, drv, kinds, meta):
     scratch = tempfile.mkdtemp(prefix="c15_", dir=str(BUILD))
     full = ["D1", "S1"] if run.tier == "quick" else list(Z.BEHAVIOUR_CLASSES)
     sampled = [c for c in Z.BEHAVIOUR_CLASSES if c not in full]
-    plan = [(c, n, op) for c in full for n, op in api]
+    plan = [(c, n, op, "dense") for c in full for n, op in api]
     for c in sampled:
         sub = run.rng.sample(api, 60)
-        plan += [(c, n, op) for n, op in sub]
+        plan += [(c, n, op, "dense") for n, op in sub]
+    # lazily stacked receivers (a tensorclass around a LazyStackedTensorDict)
+    lazy_names = api if run.tier == "thorough" else run.rng.sample(api, 110)
+    for c in (["D1", "S1"] if run.tier == "thorough" else ["D1"]):
+        plan += [(c, n, op, "lazy") for n, op in lazy_names]
     reqs, pend = [], []
     coverage = {}
     try:
-        for clsname, name, is_op in plan:
+        for clsname, name, is_op, recv in plan:
+            mk = (lambda c, fl: Z.make_lazy(c, flavour=fl)) if recv == "lazy" else (lambda c, fl: Z.make(c, flavour=fl))
             if name in G.SKIP_BEHAVIOUR:
                 run.count("behaviour.skipped", G.SKIP_BEHAVIOUR[name])
                 continue
@@ -190,11 +195,15 @@ def behaviour(run, drv, kinds, meta):
             if kind is None:
                 base = {"AcS": "S1", "NcS": "S1"}.get(clsname, "D1")
                 kind = kinds.get((base, name), "missing")
-            styles = [False, True] if name in classmethods else [False]
+            styles = [False, True] if (name in classmethods and recv == "dense") else [False]
             for cand in G.candidates(name):
               for on_class in styles:
                 ctx = B.Ctx(cls, scratch, cand.flavour)
-                tcA, tcB = Z.make(cls, flavour=cand.flavour), Z.make(cls, flavour=cand.flavour)
+                try:
+                    tcA, tcB = mk(cls, cand.flavour), mk(cls, cand.flavour)
+                except Exception as e:  # noqa: BLE001
+                    run.count("behaviour.receiver_failed", f"{recv}:{type(e).__name__}")
+                    continue
                 tdB = tcB._tensordict
                 try:
                     if cand.prepare is not None:
@@ -207,7 +216,7 @@ def behaviour(run, drv, kinds, meta):
                     continue
                 st_td, r_td = B.invoke(tdB, name, aB, kB, is_op, on_class)
                 st_tc, r_tc = B.invoke(tcA, name, aA, kA, is_op, on_class)
-                label = cand.label + ("@class" if on_class else "")
+                label = cand.label + ("@class" if on_class else "") + ("@lazy" if recv == "lazy" else "")
                 case = [clsname, name, label]
                 run.case(tuple(case), nontrivial=(st_td == "ok"))
                 run.count("behaviour.td_outcome", st_td if st_td == "ok" else "raises:" + err_class(r_td))
@@ -232,7 +241,7 @@ def behaviour(run, drv, kinds, meta):
                                     fingerprint=f"{name}:{label}:raises:{err_class(r_tc)}")
                     continue
                 a, b = B.normalise(name, r_tc, r_td)
-                why = B.same_result(name, a, b, tcA, tdB, fields, values=name not in B.UNINIT)
+                why = B.same_result(name, a, b, tcA, tdB, fields, values=name not in B.UNINIT and name not in B.ADDRESSES)
                 if why is None and B.canon(tcA._tensordict) != B.canon(tdB):
                     why = "side effects on the receiver differ"
                 if why is None:
